@@ -63,78 +63,96 @@ func init() {
 				}
 				n++
 				removes := false
-				inspectParents(f.Body(), func(x ast.Node, ps []ast.Node) bool {
-					ifs, ok := x.(*ast.IfStmt)
-					if !ok {
-						return true
+				var scan func(body ast.Node, binfo *types.Info)
+				scan = func(body ast.Node, binfo *types.Info) {
+					isFacB := func(e ast.Expr) bool {
+						se, ok := ast.Unparen(e).(*ast.SelectorExpr)
+						return ok && binfo.Uses[se.Sel] == types.Object(fac)
 					}
-					// the test is applied to EVERY summand: it is a direct statement of the body of a loop, and no
-					// statement in front of it in that body can `continue` past it
-					everySummand := false
-					if len(ps) >= 2 {
-						if blk, ok := ps[len(ps)-1].(*ast.BlockStmt); ok {
-							isLoopBody := false
-							switch l := ps[len(ps)-2].(type) {
-							case *ast.ForStmt:
-								isLoopBody = l.Body == blk
-							case *ast.RangeStmt:
-								isLoopBody = l.Body == blk
-							}
-							if isLoopBody {
-								everySummand = true
-								for _, st := range blk.List {
-									if st == ast.Stmt(ifs) {
-										break
-									}
-									ast.Inspect(st, func(y ast.Node) bool {
-										switch b := y.(type) {
-										case *ast.FuncLit, *ast.ForStmt, *ast.RangeStmt:
-											return false
-										case *ast.BranchStmt:
-											if b.Tok == token.CONTINUE {
-												everySummand = false
+					inspectParents(body, func(x ast.Node, ps []ast.Node) bool {
+						ifs, ok := x.(*ast.IfStmt)
+						if !ok {
+							return true
+						}
+						// the test is applied to EVERY summand: it is a direct statement of the body of a loop, and no
+						// statement in front of it in that body can `continue` past it
+						everySummand := false
+						if len(ps) >= 2 {
+							if blk, ok := ps[len(ps)-1].(*ast.BlockStmt); ok {
+								isLoopBody := false
+								switch l := ps[len(ps)-2].(type) {
+								case *ast.ForStmt:
+									isLoopBody = l.Body == blk
+								case *ast.RangeStmt:
+									isLoopBody = l.Body == blk
+								}
+								if isLoopBody {
+									everySummand = true
+									for _, st := range blk.List {
+										if st == ast.Stmt(ifs) {
+											break
+										}
+										ast.Inspect(st, func(y ast.Node) bool {
+											switch b := y.(type) {
+											case *ast.FuncLit, *ast.ForStmt, *ast.RangeStmt:
+												return false
+											case *ast.BranchStmt:
+												if b.Tok == token.CONTINUE {
+													everySummand = false
+												}
 											}
+											return true
+										})
+									}
+								}
+							}
+						}
+						if !everySummand {
+							return true
+						}
+						zeroTest := false
+						ast.Inspect(ifs.Cond, func(y ast.Node) bool {
+							if be, ok := y.(*ast.BinaryExpr); ok && be.Op == token.EQL {
+								if (isFacB(be.X) && isZeroLit(be.Y)) || (isFacB(be.Y) && isZeroLit(be.X)) {
+									zeroTest = true
+								}
+							}
+							return true
+						})
+						if !zeroTest {
+							return true
+						}
+						ast.Inspect(ifs.Body, func(y ast.Node) bool {
+							as, ok := y.(*ast.AssignStmt)
+							if !ok {
+								return true
+							}
+							for i, l := range as.Lhs {
+								if se, ok := ast.Unparen(l).(*ast.SelectorExpr); ok && binfo.Uses[se.Sel] == types.Object(sums) && i < len(as.Rhs) {
+									ast.Inspect(as.Rhs[i], func(z ast.Node) bool {
+										if _, ok := z.(*ast.SliceExpr); ok {
+											removes = true
 										}
 										return true
 									})
 								}
 							}
-						}
-					}
-					if !everySummand {
-						return true
-					}
-					zeroTest := false
-					ast.Inspect(ifs.Cond, func(y ast.Node) bool {
-						if be, ok := y.(*ast.BinaryExpr); ok && be.Op == token.EQL {
-							if (isFac(be.X) && isZeroLit(be.Y)) || (isFac(be.Y) && isZeroLit(be.X)) {
-								zeroTest = true
-							}
-						}
-						return true
-					})
-					if !zeroTest {
-						return true
-					}
-					ast.Inspect(ifs.Body, func(y ast.Node) bool {
-						as, ok := y.(*ast.AssignStmt)
-						if !ok {
 							return true
-						}
-						for i, l := range as.Lhs {
-							if se, ok := ast.Unparen(l).(*ast.SelectorExpr); ok && info.Uses[se.Sel] == types.Object(sums) && i < len(as.Rhs) {
-								ast.Inspect(as.Rhs[i], func(z ast.Node) bool {
-									if _, ok := z.(*ast.SliceExpr); ok {
-										removes = true
-									}
-									return true
-								})
-							}
-						}
+						})
 						return true
 					})
-					return true
-				})
+				}
+				scan(f.Body(), info)
+				if !removes {
+					// the removal may live in a helper of the package that this function calls (subtractSummand)
+					for _, c := range callsInDeep(f.Body()) {
+						if fn := p.Callee(f.Pkg, c); fn != nil {
+							if h := p.FnOfObj(fn); h != nil && h.Short == "query" && h.Lit == nil && h.Body() != nil && h.Name != "cleanNumberConditions" {
+								scan(h.Body(), h.Pkg.TypesInfo)
+							}
+						}
+					}
+				}
 				r.Check(removes, rule, f.Key()+" changes a summand's factor", p.Pos(change), "zero summands are removed in the same function", "the function adds to or subtracts from a summand's factor and nowhere removes a summand whose factor has become 0: the clean-up takes |Summands[0].Factor| as common divisor and computes f % commonFactor — a filter that subtracts a field from its own bound (`id:@id@`, `sport:@sport@+0`) makes Parse panic with an integer divide by zero")
 			}
 			r.Floor(rule, 1, n)
